@@ -790,8 +790,18 @@ class Project(MessageHandler):
         # Total calendar days (with 50% buffer for weekends/non-working days)
         total_days_needed: int = int((work_days_needed + gap_days) * 1.5) + 7
 
-        # Calculate minimum required end date
-        min_end_date = self.attributes["start"] + timedelta(days=total_days_needed)
+        # Calculate minimum required end date. The extension is a convenience for work
+        # that slightly overruns the declared project; it is capped so that an absurd
+        # effort (a typo like 'effort 99999999min') is reported as work that does not
+        # fit instead of allocating slot tables for centuries.
+        max_extension_days = 3 * 365
+        latest_end = self.attributes["end"] + timedelta(days=max_extension_days)
+        try:
+            min_end_date = self.attributes["start"] + timedelta(days=total_days_needed)
+        except OverflowError:
+            min_end_date = latest_end
+        if min_end_date > latest_end:
+            min_end_date = latest_end
 
         # Extend project end if needed
         if min_end_date > self.attributes["end"]:
